@@ -120,3 +120,34 @@ fn bounded_update_counts_2x2() {
     kani::cover!(n == 0);
     kani::cover!(n == 2);
 }
+
+// the same contract on one row x two samples (the smallest table): cheap enough for the quick tier
+#[kani::proof]
+#[kani::unwind(4)]
+fn bounded_update_counts_1x2() {
+    let cells: [[u8; 2]; 1] = kani::any();
+    let flag: bool = kani::any();
+    let k0: u64 = kani::any();
+    let mut arr = MergeSkaArray::<u64> {
+        k: 31,
+        rc: true,
+        names: vec![String::new(), String::new()],
+        split_kmers: vec![k0],
+        variants: arr2(&cells),
+        variant_count: vec![kani::any()],
+        ska_version: String::new(),
+        k_bits: 64,
+    };
+    arr.update_counts(flag);
+    let c0 = count_cell(cells[0][0], flag) as usize + count_cell(cells[0][1], flag) as usize;
+    let n = (c0 > 0) as usize;
+    assert!(arr.split_kmers.len() == n);
+    assert!(arr.variant_count.len() == n);
+    assert!(arr.variants.nrows() == n);
+    if c0 > 0 {
+        assert!(arr.split_kmers[0] == k0 && arr.variant_count[0] == c0);
+        assert!(arr.variants[[0, 0]] == cells[0][0] && arr.variants[[0, 1]] == cells[0][1]);
+    }
+    kani::cover!(n == 0);
+    kani::cover!(n == 1 && c0 == 1);
+}
